@@ -885,14 +885,14 @@ mod v_iface_seq {
         crate::vassert!(ok, "prop:c03_echo_request_answered_after_arbitrary_frames");
     }
 
-    // @harness props=C03 cfg=KLi tier=q to=900 mem=12 unwind=12 opts=nomem,fs1600 covers=2 funcs=InterfaceInner::process_ieee802154;Ieee802154Repr::parse;InterfaceInner::process_sixlowpan;InterfaceInner::process_sixlowpan_fragment;PacketAssemblerSet::get;PacketAssembler::add;InterfaceInner::sixlowpan_to_ipv6;InterfaceInner::process_ipv6;InterfaceInner::process_icmpv6 bounds=IEEE_802.15.4_medium,_extended_addresses,_PAN_0xabcd,_own_fe80::1,_one_ICMP_socket,_2_reassembly_slots_of_256_octets;_frame_1:_FRAG1_with_free_datagram_size_<256_and_free_tag,_IPHC_7a_33_+_ICMPv6_echo_header_(48_octets_uncompressed);_frame_2:_FRAGN_with_free_datagram_size_<256,_tag_and_8_data_octets,_offset_6;_frame_3:_unfragmented_IPHC_echo_request_from_fe80::2;_reply_packet_checked_(not_its_compression)
+    // @harness props=C03 cfg=KLi tier=q to=900 mem=12 unwind=12 opts=nomem,fs256 covers=2 funcs=InterfaceInner::process_ieee802154;Ieee802154Repr::parse;InterfaceInner::process_sixlowpan;InterfaceInner::process_sixlowpan_fragment;PacketAssemblerSet::get;PacketAssembler::add;InterfaceInner::sixlowpan_to_ipv6;InterfaceInner::process_ipv6;InterfaceInner::process_icmpv6 bounds=IEEE_802.15.4_medium,_extended_addresses,_PAN_0xabcd,_own_fe80::1,_one_ICMP_socket,_2_reassembly_slots_of_256_octets;_frame_1:_FRAG1_with_free_datagram_size_<256_and_free_tag,_IPHC_7a_33_+_ICMPv6_echo_header_(48_octets_uncompressed);_frame_2:_FRAGN_with_free_datagram_size_<256,_tag_and_8_data_octets,_offset_6;_frame_3:_unfragmented_IPHC_echo_request_from_fe80::2;_reply_packet_checked_(not_its_compression)
     #[cfg(all(feature = "medium-ieee802154", feature = "proto-sixlowpan-fragmentation", feature = "socket-icmp"))]
     #[kani::proof]
     pub(crate) fn seq_lowpan_frag1_fragn_then_echo() {
         lowpan_seq_case(true, true, false);
     }
 
-    // @harness props=C03 cfg=KLi tier=q to=900 mem=12 unwind=12 opts=nomem,fs1600 covers=2 funcs=InterfaceInner::process_ieee802154;InterfaceInner::process_sixlowpan;InterfaceInner::process_sixlowpan_fragment;PacketAssemblerSet::get;PacketAssembler::add;InterfaceInner::process_ipv6;InterfaceInner::process_icmpv6 bounds=as_seq_lowpan_frag1_fragn_then_echo_without_frame_1:_FRAGN_with_free_datagram_size_<256,_tag,_OFFSET_and_8_data_octets_on_fresh_reassembly_slots,_then_the_echo_request
+    // @harness props=C03 cfg=KLi tier=q to=900 mem=12 unwind=12 opts=nomem,fs256 covers=2 funcs=InterfaceInner::process_ieee802154;InterfaceInner::process_sixlowpan;InterfaceInner::process_sixlowpan_fragment;PacketAssemblerSet::get;PacketAssembler::add;InterfaceInner::process_ipv6;InterfaceInner::process_icmpv6 bounds=as_seq_lowpan_frag1_fragn_then_echo_without_frame_1:_FRAGN_with_free_datagram_size_<256,_tag,_OFFSET_and_8_data_octets_on_fresh_reassembly_slots,_then_the_echo_request
     #[cfg(all(feature = "medium-ieee802154", feature = "proto-sixlowpan-fragmentation", feature = "socket-icmp"))]
     #[kani::proof]
     pub(crate) fn seq_lowpan_fragn_free_offset_then_echo() {
@@ -1031,5 +1031,12 @@ mod v_iface_seq {
         kani::cover!(said == 2 && xid1 == xid && f1[42 + 242] == 2, "frame 1 was an OFFER for the pending transaction: REQUEST sent");
         kani::cover!(said == 1 && xid1 == xid && f1[42 + 242] == 2, "an OFFER with the right transaction id but not acceptable: DISCOVER repeated");
         crate::vassert!(said == 1 || said == 2, "prop:c03_dhcp_client_still_transmits_after_arbitrary_server_messages");
+    }
+
+    // @harness props=C03 cfg=KLi tier=t to=450 mem=12 unwind=12 opts=nomem,fs256 covers=2 bounds=experiment
+    #[cfg(all(feature = "medium-ieee802154", feature = "proto-sixlowpan-fragmentation", feature = "socket-icmp"))]
+    #[kani::proof]
+    pub(crate) fn x_lowpan_echo_only() {
+        lowpan_seq_case(false, false, false);
     }
 }
